@@ -64,6 +64,18 @@ def run(ctx):
             ctx.fail("R10-no-belief-panic", "%s:%s" % (add.key, kind), span, "add contains an explicit panic site (%s %s) that is not allow-listed" % (kind, detail or ""))
     ctx.floor("R10-no-belief-panic", n_checked, 3, "may-panic sites examined in add")
 
+    heap_pairing_rules(ctx, add)
+    # the estimate used for displacement decisions is the sketch's return value: C10's guarantee is relative to the
+    # count-min contract (never below the true count, equal to query_point afterwards), decided by C02's rules
+    from . import C02
+    C02.run(ctx)
+    order_and_config_rules(ctx, add, new)
+
+
+def heap_pairing_rules(ctx, add):
+    """R10-paired / R10-capacity / R10-sketch-always-fed (also the premise of C11's `CMSHeap holds at most k items`)"""
+    prog = ctx.prog
+    selfp = ("param", 1, "self")
     # ---- paths ----------------------------------------------------------------------------
     pe = PathEnumerator(add, prog, ctx.summ)
     size_lt_k = mk("Lt", ("call", "std::collections::HashMap::len", (("field", selfp, "obj2count"),)), ("field", selfp, "k"))
@@ -144,6 +156,10 @@ def run(ctx):
     ctx.check(not probs_cap, "R10-capacity", add.key, add, "growth only under obj2count.len() < k; with room a new key is always inserted", "; ".join(sorted(set(probs_cap))[:3]))
     ctx.check(not probs_fed, "R10-sketch-always-fed", add.key, add, "cms.add(&item) precedes every branch", "; ".join(sorted(set(probs_fed))[:2]))
 
+
+
+def order_and_config_rules(ctx, add, new):
+    prog = ctx.prog
     # ---- k >= 1, config ---------------------------------------------------------------------
     cf = config_fields(ctx, CH)
     ctx.check("k" in cf, "R10-config", CH + ":k", add, "k is never written outside the constructor", "field k is written by a method")
